@@ -40,14 +40,28 @@ Definition same_state (s : state) (d : dump) : bool :=
   && forallb (fun r => opt_eqb N.eqb (ghost_lock (s_ghost s) (fst r)) (Some (snd r))) (o_ghost d).
 
 (* one call: the result class the implementation returned and the dump taken
-   right after it *)
-Fixpoint replay (s : state) (os : list op) (obs : list (res unit * dump)) : bool :=
+   right after it; Some final state when every call agrees *)
+Fixpoint replay_st (s : state) (os : list op) (obs : list (res unit * dump)) : option state :=
   match os, obs with
-  | [], [] => true
+  | [], [] => Some s
   | o :: os', (r, d) :: obs' =>
       let (s', r') := step s o in
-      res_class_eqb r r' && same_state s' d && replay s' os' obs'
-  | _, _ => false
+      if res_class_eqb r r' && same_state s' d then replay_st s' os' obs' else None
+  | _, _ => None
+  end.
+
+Definition replay (s : state) (os : list op) (obs : list (res unit * dump)) : bool :=
+  match replay_st s os obs with Some _ => true | None => false end.
+
+(* result classes only (the calls of a concurrent batch, in the sequential
+   order the harness found) *)
+Fixpoint replay_classes (s : state) (os : list op) (rs : list (res unit)) : option state :=
+  match os, rs with
+  | [], [] => Some s
+  | o :: os', r :: rs' =>
+      let (s', r') := step s o in
+      if res_class_eqb r r' then replay_classes s' os' rs' else None
+  | _, _ => None
   end.
 
 (* hashes and keys of a history are listed once and referred to by position *)
@@ -56,3 +70,19 @@ Definition lookup (tbl : list N) (i : nat) : N := nth i tbl 0.
 Definition check_hist (tbl : list N) (ops : (nat -> N) -> list op)
                       (obs : (nat -> N) -> list (res unit * dump)) : bool :=
   replay init (ops (lookup tbl)) (obs (lookup tbl)).
+
+(* a sequential prefix, then a batch issued from several goroutines: the batch
+   is given in a sequential order under which the model must return the
+   observed classes and end in the observed final dump *)
+Definition check_conc (tbl : list N) (pre : (nat -> N) -> list op)
+                      (obs : (nat -> N) -> list (res unit * dump))
+                      (batch : (nat -> N) -> list op) (rs : list (res unit))
+                      (final : (nat -> N) -> dump) : bool :=
+  match replay_st init (pre (lookup tbl)) (obs (lookup tbl)) with
+  | Some s =>
+      match replay_classes s (batch (lookup tbl)) rs with
+      | Some s' => same_state s' (final (lookup tbl))
+      | None => false
+      end
+  | None => false
+  end.
